@@ -45,7 +45,29 @@ CHECKS = {
  "C19": ("exploration", "exhaustive consistency + exact-order oracle over a finite boundary domain, plus GRL sample",
          "All six operators, mirrored calls and the exact mathematical order (math/big) for every ordered pair over 12 numeric kinds x 3 wrappings x 32 boundary values, strings, booleans, times (locations, monotonic reading); exhaustive over that finite domain (evidence: exhaustive=true for the direct part). A seeded sample goes through GRL conditions over typed fields.",
          "Trusted: math/big; domain bounded to the int64 range, NaN excluded.", "DESIGN §5 C19"),
+ "C07": ("exploration", "self-differential: rule built alone vs with a near-identical sibling (canonical AST form + behaviour)",
+         "One catalogue mutation per pair (constants differing in late digits / sign / exponent / kind, strings with quotes and brackets, crafted snapshot-imitating strings, operators, negations, operand order, selectors, arguments, names), every build order; alone vs together compared by canonical form of the engine AST reachable from the entry and by FetchMatchingRules membership + execution results on random states and states at / between the two constants.",
+         "Trusted: canonical printer over exported AST fields; no reference semantics involved.", "DESIGN §5 C07"),
+ "C09": ("exploration", "race detector + sequential-reference comparison + reflection/unsafe deep-state walker",
+         "Race-detector build: 8-32 goroutines create instances from one library and execute them on their own facts (yields, GOMAXPROCS 1/2/4/16), each result compared with the sequential result; deep identity-keyed walk of blueprint and instances (all node fields, the five working-memory maps): no shared AST node, blueprint and other instance unchanged while one instance executes / retracts / removes; instance creation succeeds and equals the blueprint canonically. Race reports are read from the detector's log and de-duplicated.",
+         "Samples schedules; the race detector sees only accesses the workload performs.", "DESIGN §5 C09"),
+ "C12": ("fault_enumeration", "truncation-offset and failing-writer enumeration + round-trip canonical / behavioural comparison",
+         "Per program: store with Write-call sizes recorded; round trip twice through 4 legal readers with canonical-form and per-run-monitor comparison against the ORIGINAL program; truncation at every field boundary (+ neighbours, + inside-field sample; every offset in thorough) must fail to load, also through one-byte / half / data-with-EOF readers; writer failing at its k-th call (quota in quick, every index in thorough; error and partial-write flavours) must make the store fail; overwrite=false leaves the existing entry untouched.",
+         "Trusted: reference interpreter for the behavioural half; canonical printer.", "DESIGN §5 C12"),
+ "C16": ("exploration", "history monitor: executable model + probe after every step",
+         "Histories of build / remove (library, knowledge base, instance) / rebuild / instantiate / store / load over up to 4 knowledge bases whose (name, version) pairs collide under naive joining; after EVERY step every knowledge base is probed (FetchMatchingRules + Execute on a fresh instance, each rule records the id of its own text) and compared with a model kb -> name -> text id.",
+         "Trusted: the dozen-line model; partially kept rules of a rejected multi-rule text follow the probe.", "DESIGN §5 C16"),
+ "C17": ("exploration", "differential against an independent recogniser (ANTLR-semantics lexer + Earley + literal/name validity)",
+         "Valid generated documents and token- / character-level mutants (1-3 edits) plus a targeted library, loaded into empty and preloaded knowledge bases; acceptance must equal the recogniser's verdict, accepted rules must carry declared name / description / salience, syntax rejections must be a GruleErrorReporter with >=1 error, and the preloaded rules must instantiate, store, load and behave as before after every document.",
+         "Trusted: harness/recog.go as the specification of 'grammatical' (transcribed from grulev3.g4 and the docs; 0 disagreements with the unchanged builder on >500 000 documents).", "DESIGN §5 C17"),
+ "C18": ("exploration", "differential: engine on translated GRL vs reference evaluation of the JSON tree",
+         "Typed operator trees rendered as JSON with every mix of operand forms, constants of every kind and magnitude, via ParseJSONRule(set) and JSONResource; the GRL must build, carry name / description / salience and evaluate to the reference value with operands grouped exactly as nested; a table of malformed rules must be rejected through every entry point. K3 (escaped descriptions) matched by an exact counterfactual signature.",
+         "Trusted: reference interpreter; one-operand not = negation of an operator object; plain strings are raw GRL (atoms only).", "DESIGN §5 C18"),
+ "C20": ("exploration", "sandboxed child processes (RLIMIT_AS, BEGIN/END progress log, in-child CPU watchdog, MemStats.Sys growth)",
+         "Random bytes, valid seeds and structure-aware mutants (bit flips, byte edits, truncation, splicing, dictionary tokens, boundary numbers, deep nesting, edits of every 8-byte GRB length / count field) for the four loaders; verdicts: panic escaping the API, death of the process (fatal error, OOM under RLIMIT_AS, stack overflow), CPU time above T(n), OS memory growth above M(n). Hangs are decided on the child's CPU time, the parent's wall-clock watchdog only yields inconclusive.",
+         "Budgets T(n) = 12 s + 2 us n^2 and M(n) = 96 MiB + 256 n are fixed (>=10x the measured worst case, reported in the evidence); inputs <= 4 KiB (rules) / 64 KiB (facts, GRB).", "DESIGN §5 C20"),
 }
+
 
 NOT_YET = {}
 
